@@ -139,6 +139,19 @@ func fileIndex(path, variant string) int {
 	return len(out.Files) - 1
 }
 
+var lineDirCache = map[string]bool{}
+
+// fileIndexQuiet reports whether the file contains a line directive (without registering the file).
+func fileIndexQuiet(path string) bool {
+	if v, ok := lineDirCache[path]; ok {
+		return v
+	}
+	b, err := os.ReadFile(path)
+	v := err == nil && lineDirRe.Match(b)
+	lineDirCache[path] = v
+	return v
+}
+
 func fileBytes(i int) []byte {
 	b, _ := hex.DecodeString(out.Files[i].Hex)
 	return b
@@ -450,13 +463,21 @@ func analyzeModule(work string, m modSpec, rnd *hx.Rand) {
 		for _, f := range r.Package.CompiledGoFiles {
 			inPkg[f] = true
 		}
+		// a //line directive in any file of the package can remap positions into any file name: the whole
+		// package is exempt from position checks (the property sets remapped positions aside)
+		pkgLineDir := false
+		for f := range inPkg {
+			if fileIndexQuiet(f) {
+				pkgLineDir = true
+			}
+		}
 		for _, d := range data.Diagnostics {
 			addDiag := func(kind string, pos, end token.Position, msg string) int {
 				rec := DiagRec{File: -1, Check: d.Category, Msg: msg, Kind: kind, Pos: mkPos(pos), Variant: m.variant, PosFile: pos.Filename, Pkg: r.Package.ID}
 				if inPkg[pos.Filename] {
 					rec.File = fileIndex(pos.Filename, m.variant)
 				}
-				if rec.File >= 0 && out.Files[rec.File].LineDir {
+				if pkgLineDir {
 					rec.Exempt = true
 				}
 				if end.Line != 0 || end.Filename != "" {
@@ -505,7 +526,7 @@ func analyzeModule(work string, m modSpec, rnd *hx.Rand) {
 					fr.Edits[i], fr.Edits[j] = fr.Edits[j], fr.Edits[i]
 				}
 				if fr.File >= 0 && fr.OneFile {
-					fr.Exempt = out.Files[fr.File].LineDir
+					fr.Exempt = pkgLineDir
 					src := fileBytes(fr.File)
 					patched, ok, same := applyEdits(src, hes)
 					fr.Applied, fr.SameInsert = ok, same
